@@ -35,6 +35,7 @@ var rtFuncs = map[string]bool{
 	"runCfg": true, "run": true, "clone": true, "stop": true,
 	"Execute": true, "ExecuteWithContext": true, "EvalWithContext": true, "EvalPathWithContext": true,
 	"getFrame": true, "newFrame": true,
+	"execute": true, "runWithID": true, "eval": true, "evalPath": true, "EvalPath": true, "Eval": true,
 }
 
 // Files that are run-time code as a whole.
@@ -355,8 +356,26 @@ func (w *weaver) exprsIn(s ast.Node, fn string, rt bool) {
 			w.funcLit(fl, fn, rt)
 			return false
 		}
+		if c, ok := n.(*ast.CallExpr); ok {
+			w.selectCall(c, fn)
+		}
 		return true
 	})
+}
+
+// selectCall applies W7: reflect.Select(x) -> verifSelect(site, x), so that the
+// choice among several ready cases is the simulator's, not the runtime's.
+func (w *weaver) selectCall(c *ast.CallExpr, fn string) {
+	sel, ok := c.Fun.(*ast.SelectorExpr)
+	if !ok || sel.Sel.Name != "Select" || len(c.Args) != 1 {
+		return
+	}
+	id, ok := sel.X.(*ast.Ident)
+	if !ok || id.Name != "reflect" {
+		return
+	}
+	site := addSite("select", w.name, w.line(c.Pos()), fn)
+	w.edits = append(w.edits, edit{w.off(c.Fun.Pos()), w.off(c.Lparen) + 1, fmt.Sprintf("verifSelect(%d, ", site), 0})
 }
 
 func isNilNode(n ast.Node) bool {
@@ -421,7 +440,10 @@ const hooksSrc = `// Code generated by /verif/weave. DO NOT EDIT.
 
 package interp
 
-import "sync"
+import (
+	"reflect"
+	"sync"
+)
 
 // Hooks of the deterministic simulator. With every variable nil the woven
 // package behaves like the original.
@@ -430,7 +452,18 @@ var (
 	VerifYield func(site int)
 	VerifGo    func(site int, fn func())
 	VerifLock  func(mu any, write bool, site int) bool
+	// VerifSelect may perform the select itself (handled=true).
+	VerifSelect func(site int, cases []reflect.SelectCase) (chosen int, recv reflect.Value, recvOK bool, handled bool)
 )
+
+func verifSelect(site int, cases []reflect.SelectCase) (int, reflect.Value, bool) {
+	if VerifSelect != nil {
+		if c, v, ok, handled := VerifSelect(site, cases); handled {
+			return c, v, ok
+		}
+	}
+	return reflect.Select(cases)
+}
 
 func verifStep(site int) {
 	if VerifStep != nil {
